@@ -21,9 +21,13 @@ import (
 	"time"
 
 	"github.com/nspcc-dev/neo-go/pkg/core/block"
+	"github.com/nspcc-dev/neo-go/pkg/core/state"
 	"github.com/nspcc-dev/neo-go/pkg/core/transaction"
 	"github.com/nspcc-dev/neo-go/pkg/io"
+	"github.com/nspcc-dev/neo-go/pkg/smartcontract/trigger"
+	"github.com/nspcc-dev/neo-go/pkg/util"
 	"github.com/nspcc-dev/neo-go/pkg/vm/stackitem"
+	"github.com/nspcc-dev/neo-go/pkg/vm/vmstate"
 )
 
 func init() {
@@ -359,16 +363,17 @@ func c17Extremes(name string) [][]byte {
 // ---------------- the runs ----------------
 
 type c17Input struct {
-	V     string   `json:"v,omitempty"`
-	Max   int      `json:"max,omitempty"`
-	Bytes string   `json:"bytes,omitempty"`
-	Text  string   `json:"text,omitempty"`
-	Type  string   `json:"type,omitempty"`
-	Tx    *c17Tx   `json:"tx,omitempty"`
-	Item  *c17Item `json:"item,omitempty"`
-	N     int      `json:"n,omitempty"`
-	Seed  uint64   `json:"seed,omitempty"`
-	Idx   int      `json:"idx,omitempty"`
+	V      string    `json:"v,omitempty"`
+	Max    int       `json:"max,omitempty"`
+	Bytes  string    `json:"bytes,omitempty"`
+	Text   string    `json:"text,omitempty"`
+	Type   string    `json:"type,omitempty"`
+	Tx     *c17Tx    `json:"tx,omitempty"`
+	Item   *c17Item  `json:"item,omitempty"`
+	Shared []c17Item `json:"shared,omitempty"` // instances that "ref" items of Item denote (one Go instance each)
+	N      int       `json:"n,omitempty"`
+	Seed   uint64    `json:"seed,omitempty"`
+	Idx    int       `json:"idx,omitempty"`
 }
 
 var c17Modelled = map[string]string{"tx/bytes": "CTxDec 0", "tx/stream": "CTxDec 1", "signer": "CSignerDec", "cond": "CCondDec", "attr": "CAttrDec",
@@ -484,6 +489,8 @@ func (x *c17Runner) runCase(kind string, in c17Input) {
 			}
 		}
 		co.add(kind, in.Item.T, in.Item.T == "array" || in.Item.T == "struct" || in.Item.T == "map" || in.Item.T == "int", in, hx(b), fmt.Sprintf("CItemEnc %s %s", in.Item.coq(), impl))
+	case "item_dag":
+		c17ItemDAG(x, in)
 	case "dec":
 		t := c17TypeByName(in.Type)
 		if t == nil {
@@ -788,6 +795,36 @@ func c17RunModelled(x *c17Runner, r *rng, cf *commonFlags) {
 		it := c17GenItem(r, 3, &budget)
 		x.runCase("item_enc", c17Input{Item: &it})
 	}
+	// items with sharing: one compound instance reachable several times (the serialisers' "seen" replay path)
+	for i := 0; i < n/5+8; i++ {
+		sh, top := c17GenDAG(r)
+		x.runCase("item_dag", c17Input{Item: &top, Shared: sh})
+	}
+	for _, kind := range []string{"array", "struct", "map"} {
+		for _, k := range []int{1, 2, 5, 10, 11} {
+			if kind != "array" && k == 5 {
+				continue
+			}
+			sh, top := c17GenDoubling(kind, k)
+			x.runCase("item_dag", c17Input{Item: &top, Shared: sh})
+		}
+	}
+	for _, kind := range []string{"array", "struct", "map"} {
+		for _, total := range []int{2048, 2049} {
+			sh, top := c17GenBudgetEdge(kind, total)
+			x.runCase("item_dag", c17Input{Item: &top, Shared: sh})
+		}
+	}
+	{ // size limit reached only through the repetition of a shared instance
+		big := c17Item{T: "array", L: []c17Item{{T: "bytes", D: hx(make([]byte, 43000))}}}
+		for _, n := range []int{3, 4} {
+			top := c17Item{T: "struct", L: []c17Item{}}
+			for i := 0; i < n; i++ {
+				top.L = append(top.L, c17Ref(0))
+			}
+			x.runCase("item_dag", c17Input{Item: &top, Shared: []c17Item{big}})
+		}
+	}
 	// decoders of the modelled types: valid, mutated, extreme
 	for name := range c17Modelled {
 		_ = name
@@ -1044,4 +1081,134 @@ func c17OverLimitTxs(r *rng) []c17Tx {
 	t.Signers[0].Scopes, t.Signers[0].Contracts, t.Signers[0].Groups, t.Signers[0].Rules = 0x02, nil, nil, nil
 	out = append(out, t)
 	return out
+}
+
+// one item with shared instances through every serialiser; oracle = the tree obtained by unfolding (built with fresh
+// instances in Go, and the value-semantics item model in Coq)
+func c17ItemDAG(x *c17Runner, in c17Input) {
+	co := x.co
+	bad := func(note string, impl any) { co.violation("item_dag", "shared instance: "+note, in, impl) }
+	p := catch(func() {
+		dag := in.Item.buildCtx(&c17ItemCtx{shared: in.Shared, share: true})
+		tree := in.Item.buildCtx(&c17ItemCtx{shared: in.Shared, share: false})
+		es := func(e error) string {
+			if e == nil {
+				return ""
+			}
+			return e.Error()
+		}
+		bd, errD := stackitem.Serialize(dag)
+		bd = bytes.Clone(bd)
+		bt, errT := stackitem.Serialize(tree)
+		if (errD == nil) != (errT == nil) || !bytes.Equal(bd, bt) {
+			bad("Serialize differs from Serialize of the unfolded tree", map[string]string{"dag": hx(bd), "dagErr": es(errD), "tree": hx(bt), "treeErr": es(errT)})
+		}
+		if b2, err := stackitem.SerializeLimited(dag, stackitem.MaxSerialized); (err == nil) != (errD == nil) || !bytes.Equal(b2, bd) {
+			bad("SerializeLimited(MaxSerialized) differs from Serialize", es(err))
+		}
+		w := io.NewBufBinWriter()
+		stackitem.EncodeBinary(dag, w.BinWriter)
+		if (w.Err == nil) != (errD == nil) || (w.Err == nil && !bytes.Equal(w.Bytes(), bd)) {
+			bad("EncodeBinary differs from Serialize", es(w.Err))
+		}
+		w = io.NewBufBinWriter()
+		stackitem.EncodeBinaryProtected(dag, w.BinWriter)
+		if pb := w.Bytes(); (errD == nil && !bytes.Equal(pb, bd)) || (errD != nil && !bytes.Equal(pb, []byte{byte(stackitem.InvalidT)})) {
+			bad("EncodeBinaryProtected differs from Serialize (or is not the Invalid marker on error)", hx(pb))
+		}
+		sc := stackitem.NewSerializationContext()
+		_, _ = sc.Serialize(tree, false) // the context is reused: earlier contents must not leak into the next call
+		for k := 0; k < 2; k++ {
+			b3, err := sc.Serialize(dag, false)
+			if (err == nil) != (errD == nil) || (err == nil && !bytes.Equal(b3, bd)) {
+				bad("reused SerializationContext.Serialize differs from Serialize", map[string]any{"call": k, "err": es(err), "bytes": hx(b3)})
+			}
+		}
+		if b4, err := sc.Serialize(dag, true); err != nil || (errD == nil && !bytes.Equal(b4, bd)) {
+			bad("protected SerializationContext.Serialize differs", es(err))
+		}
+		if errD == nil {
+			back, err := stackitem.Deserialize(bd)
+			if err != nil {
+				bad("own encoding is rejected: "+err.Error(), hx(bd))
+			} else {
+				if b5, err := stackitem.Serialize(back); err != nil || !bytes.Equal(b5, bd) {
+					bad("decode;encode changes the bytes", nil)
+				}
+				if !c17DeepItemEq(back, tree) {
+					if _, e := stackitem.ToJSONWithTypes(tree); e == nil {
+						bad("decoded value differs from the unfolded tree", nil)
+					}
+				}
+			}
+		}
+		// JSON forms
+		jd, e1 := stackitem.ToJSONWithTypes(dag)
+		jt, e2 := stackitem.ToJSONWithTypes(tree)
+		if (e1 == nil) != (e2 == nil) || !bytes.Equal(jd, jt) {
+			bad("ToJSONWithTypes differs from that of the unfolded tree", map[string]string{"dagErr": es(e1), "treeErr": es(e2)})
+		} else if e1 == nil {
+			if back, err := stackitem.FromJSONWithTypes(jd); err != nil || !c17DeepItemEq(back, tree) {
+				bad("FromJSONWithTypes(ToJSONWithTypes) differs from the unfolded tree", es(err))
+			}
+		}
+		jd, e1 = stackitem.ToJSON(dag)
+		jt, e2 = stackitem.ToJSON(tree)
+		if (e1 == nil) != (e2 == nil) || !bytes.Equal(jd, jt) {
+			bad("ToJSON differs from that of the unfolded tree", map[string]string{"dagErr": es(e1), "treeErr": es(e2)})
+		}
+		// execution results and notifications carrying the shared instances (one SerializationContext for all of them)
+		mk := func(it stackitem.Item) (*state.AppExecResult, *state.NotificationEvent) {
+			arr := stackitem.NewArray([]stackitem.Item{it, stackitem.Make(7), it})
+			ne := state.NotificationEvent{Name: "ev", Item: arr}
+			aer := &state.AppExecResult{Container: util.Uint256{1}, Execution: state.Execution{Trigger: trigger.Application, VMState: vmstate.Halt, GasConsumed: 5,
+				Stack: []stackitem.Item{it, arr, it}, Events: []state.NotificationEvent{ne, ne}}}
+			return aer, &ne
+		}
+		ad, nd := mk(dag)
+		at, nt := mk(tree)
+		for _, pr := range []struct {
+			name string
+			d, t io.Serializable
+			f    func() io.Serializable
+		}{{"NotificationEvent", nd, nt, func() io.Serializable { return &state.NotificationEvent{} }}, {"AppExecResult", ad, at, func() io.Serializable { return &state.AppExecResult{} }}} {
+			b1, e1 := c17Enc(pr.d)
+			b2, e2 := c17Enc(pr.t)
+			if (e1 == nil) != (e2 == nil) || !bytes.Equal(b1, b2) {
+				bad(pr.name+".EncodeBinary differs from that of the unfolded tree", map[string]string{"dagErr": es(e1), "treeErr": es(e2)})
+				continue
+			}
+			if e1 != nil {
+				continue
+			}
+			v := pr.f()
+			rd := io.NewBinReaderFromBuf(b1)
+			v.DecodeBinary(rd)
+			if rd.Err != nil {
+				bad(pr.name+": own encoding is rejected: "+rd.Err.Error(), nil)
+			} else if b3, err := c17Enc(v); err != nil || !bytes.Equal(b3, b1) {
+				bad(pr.name+": decode;encode changes the bytes", nil)
+			}
+			j1, e1 := json.Marshal(pr.d)
+			j2, e2 := json.Marshal(pr.t)
+			if (e1 == nil) != (e2 == nil) || !bytes.Equal(j1, j2) {
+				bad(pr.name+" JSON differs from that of the unfolded tree", nil)
+			}
+		}
+		// the model on the unfolded value
+		term := in.Item.coqCtx(in.Shared)
+		tag := fmt.Sprintf("shared%d/%v", len(in.Shared), errD == nil)
+		if len(term) > 120000 {
+			co.hist["item_dag/"+tag+"(direct only)"]++
+			return
+		}
+		impl := "None"
+		if errD == nil {
+			impl = "(Some " + coqBytes(bd) + ")"
+		}
+		co.add("item_dag", tag, true, in, map[string]any{"bytes": hx(bd), "err": es(errD)}, fmt.Sprintf("CItemEnc %s %s", term, impl))
+	})
+	if p != "" {
+		bad("panic: "+p, nil)
+	}
 }
